@@ -243,6 +243,98 @@ def r3(rep, mod, f):
     rep.ob("R3", "the result is (O-points, X-points) in that order", ok, f.site(), "", key="return")
 
 
+
+class WrongQuantity(Exception):
+    pass
+
+
+def _inner_outer(mod, fl):
+    """findLegs returns {"inner": the traced leg whose strike point (last point) has the smaller
+    major radius, "outer": the other}.  Decided by following the end of the function on both
+    outcomes of the comparison of the two strike radii: a swap of the pair under the comparison
+    and/or returns under it.  Anything else there is reported as unmodelled."""
+    from ..stores import effects, Marker
+
+    def leg_index(e):
+        t = T(mod, e)
+        return {K("leg_lines[0]"): 0, K("leg_lines[1]"): 1}.get(t)
+
+    def comparison(c):
+        """(i, j, op) for `leg_lines[i][-1].R op leg_lines[j][-1].R`, negation folded in"""
+        neg = False
+        while isinstance(c, ast.UnaryOp) and isinstance(c.op, ast.Not):
+            neg, c = not neg, c.operand
+        if not (isinstance(c, ast.Compare) and len(c.ops) == 1 and type(c.ops[0]) in (ast.Gt, ast.Lt, ast.GtE, ast.LtE)):
+            return None
+        sides = []
+        for x in (c.left, c.comparators[0]):
+            if isinstance(x, ast.Attribute) and x.attr != "R" and isinstance(x.value, ast.Subscript) and leg_index(x.value.value) is not None:
+                raise WrongQuantity("the legs are compared by `%s`, not by the major radius of their last point" % T(mod, x))
+            if isinstance(x, ast.Attribute) and x.attr == "R" and isinstance(x.value, ast.Subscript) and leg_index(x.value.value) is not None and T(mod, x.value.slice) != "-1":
+                raise WrongQuantity("the legs are compared at point [%s], not at their last point (the strike point)" % T(mod, x.value.slice))
+            if not (isinstance(x, ast.Attribute) and x.attr == "R" and isinstance(x.value, ast.Subscript) and T(mod, x.value.slice) == "-1"):
+                return None
+            sides.append(leg_index(x.value.value))
+        if None in sides or sides[0] == sides[1]:
+            return None
+        op = type(c.ops[0])
+        if neg:
+            op = {ast.Gt: ast.LtE, ast.Lt: ast.GtE, ast.GtE: ast.Lt, ast.LtE: ast.Gt}[op]
+        return sides[0], sides[1], op
+
+    effs = [e for e in effects(fl.node, keep=("leg_lines",)) if not any(isinstance(c, Marker) for c in e.conds)]
+    rets = [e for e in effs if e.kind == "return" and isinstance(e.value, ast.Dict)]
+    if not rets:
+        return False, "unmodelled: no dictionary is returned outside the tracing loops"
+    verdicts = []
+    for first_larger in (True, False):  # strike radius of traced leg 0 > that of traced leg 1 ?
+        perm = [0, 1]  # leg_lines[k] currently holds traced leg perm[k]
+
+        def truth(c):
+            if "leg_lines" not in T(mod, c):
+                return None  # a condition on something else (legs found, two crossings): not what is decided here
+            cmp_ = comparison(c)
+            if cmp_ is None:
+                raise ValueError("unmodelled condition %s" % T(mod, c)[:60])
+            i, j, op = cmp_
+            a, b = perm[i], perm[j]
+            larger = (a == 0) == first_larger  # is R of traced leg a the larger one
+            # ties (equal radii) are not a distinguishing case: strict and non-strict agree here
+            return larger if op in (ast.Gt, ast.GtE) else not larger
+
+        try:
+            result = None
+            for e in effs:
+                tv = [truth(c) for c in e.conds]
+                if False in tv or (None in tv and e.kind == "raise"):
+                    continue  # not on this path / a refusal for another reason
+                if e.kind == "store" and isinstance(e.target, ast.Name) and e.target.id == "leg_lines":
+                    v = T(mod, e.value)
+                    if v == K("leg_lines[::-1]") or v in (K("[leg_lines[1], leg_lines[0]]"), K("leg_lines[1], leg_lines[0]")):
+                        perm = perm[::-1]
+                    elif isinstance(e.value, ast.List) and not e.value.elts:
+                        pass
+                    else:
+                        raise ValueError("unmodelled store to leg_lines: %s" % v[:60])
+                elif e.kind == "return" and isinstance(e.value, ast.Dict):
+                    d = {k.value: leg_index(v) for k, v in zip(e.value.keys, e.value.values) if isinstance(k, ast.Constant)}
+                    if set(d) != {"inner", "outer"} or None in d.values():
+                        raise ValueError("unmodelled return %s" % T(mod, e.value)[:60])
+                    result = (perm[d["inner"]], perm[d["outer"]])
+                    break
+                elif e.kind in ("return", "raise"):
+                    raise ValueError("unmodelled exit before the legs are returned")
+        except WrongQuantity as ex:
+            return False, str(ex)
+        except ValueError as ex:
+            return False, str(ex)
+        if result is None:
+            return False, "unmodelled: no return reached when strike R of leg 0 %s leg 1" % (">" if first_larger else "<")
+        smaller = 1 if first_larger else 0
+        verdicts.append(result == (smaller, 1 - smaller))
+    return all(verdicts), "" if all(verdicts) else "the leg with the larger strike radius is labelled inner on some outcome of the comparison"
+
+
 def r4(prog, rep):
     mod = prog.module(TOK)
     f = mod.funcs.get("TokamakEquilibrium.makeRegions")
@@ -282,9 +374,18 @@ def r4(prog, rep):
     rep.ob("R4", "psinorm is 0 at the axis and 1 at the primary separatrix (so the test is sign-independent)", ok, h.site(), v.show(), key="select/psinorm")
     fl = mod.funcs.get("TokamakEquilibrium.findLegs")
     src = T(mod, fl.node)
-    ok = K("ifleg_lines[0][-1].R>leg_lines[1][-1].R:leg_lines=leg_lines[::-1]") in src and K('return{"inner":leg_lines[0],"outer":leg_lines[1]}') in src
-    rep.ob("R4", "legs are labelled inner/outer by the major radius of their strike points (last point of each traced leg)", ok, fl.site(), "", key="legs/inner-outer")
-    ok = K("line=[xpoint]") in src and K("line.append(intersect)") in src and K("iflen(inds)!=2:raiseValueError(") in src
+    ok, detail = _inner_outer(mod, fl)
+    rep.ob("R4", "legs are labelled inner/outer by the major radius of their strike points (last point of each traced leg)", ok, fl.site(), detail, key="legs/inner-outer")
+    from ..stores import effects
+    two = False
+    for e in effects(fl.node, inline=False):
+        c = e.conds[-1] if e.conds and not isinstance(e.conds[-1], str) else None
+        if e.kind == "raise" and isinstance(c, ast.Compare) and len(c.ops) == 1 and isinstance(c.ops[0], ast.NotEq) and isinstance(c.comparators[0], ast.Constant) \
+                and c.comparators[0].value == 2 and isinstance(c.left, ast.Call) and T(mod, c.left.func) == "len" and isinstance(c.left.args[0], ast.Name):
+            nm = c.left.args[0].id
+            # the counted crossings are what the tracing loops run over (one traced leg per crossing)
+            two = any(isinstance(l, ast.For) and isinstance(l.iter, ast.Name) and l.iter.id == nm for l in walk_own(fl.node))
+    ok = K("line=[xpoint]") in src and K("line.append(intersect)") in src and two
     rep.ob("R4", "each leg runs from the X-point to its wall intersection; exactly two legs per X-point", ok, fl.site(), "", key="legs/shape")
     init = mod.funcs.get("TokamakEquilibrium.__init__")
     src = T(mod, init.node)
